@@ -1,10 +1,10 @@
 (* Extraction of the EML parser model for the correspondence check (ExtrOcamlBasic only). *)
-From Verif Require Import Bytes WordEnc Writer Eml EmlRender EmlWriter EmlFront EmlWord.
+From Verif Require Import Bytes WordEnc Writer Eml EmlRender EmlWriter EmlFront EmlWord EmlRerender.
 Require Extraction.
 Require Import ExtrOcamlBasic.
 Extraction "model.ml"
-  Eml.parse_eml_fixed Eml.parse_eml_old Eml.parse_multipart_header Eml.filename_of
+  Eml.pobs_tuple Eml.fobs_tuple Eml.state_tuple Eml.parse_eml_fixed Eml.parse_eml_old Eml.parse_multipart_header Eml.filename_of
   EmlRender.parse_and_rerender_fields EmlRender.roundtrip_filename EmlRender.needs_encoding EmlRender.sanitize
   EmlWriter.filename_via_writer EmlWriter.fresh_file
   EmlFront.eml_parse EmlFront.media_type EmlFront.fields_of_block
-  EmlWord.decode_header.
+  EmlWord.decode_header EmlRerender.rerender.
